@@ -150,6 +150,10 @@ def gen(tape: Tape, tier: str) -> dict:
     # a leading label axis of size 1 that broadcasts against the value array
     if by_ndim >= 2 and layout != "blockwise-friendly" and tape.chance("gen.broadcast", 0.2) and labels.shape[0] > 1:
         labels = labels[:1]
+        if labels.dtype.kind == "f" and np.isnan(labels).all():
+            # no valid label left: an input without any group is outside the statement (eager raises IndexError too)
+            labels = labels.copy()
+            labels.reshape(-1)[0] = present[0]
     nb_last = len(chunks[-1])
     return {
         "kind": "cell",
@@ -359,8 +363,11 @@ def shrink(case):
     if n > 1:
         for i in range(n - 1, -1, -1):
             c = copy.deepcopy(case)
+            lab2 = np.delete(labels, i, axis=-1)
+            if lab2.dtype.kind == "f" and np.isnan(lab2).all():
+                continue  # an input without any group is outside the statement
             c["array"] = enc_array(np.delete(arr, i, axis=-1))
-            c["by"] = [enc_array(np.delete(labels, i, axis=-1))]
+            c["by"] = [enc_array(lab2)]
             ch = list(case["chunks"][-1])
             pos = 0
             for j, s in enumerate(ch):
